@@ -151,7 +151,7 @@ Theorem run_solved_counts_bound_attributed t tmsg ins rows st : run OR db ban fu
 Proof.
   intros H. rewrite (run_stats_are_a_function OR db ban fuel t tmsg ins rows st H). unfold stats_fun. cbn [rb_solved mcs_solved].
   pose proof (run_rows_are_alone_results OR db ban fuel t tmsg ins rows st H) as A.
-  assert (L : forall m, Forall2 (fun s r => is_m m r = is_m m (F (fresh 0 s))) (admitted OR ins) rows).
+  assert (L : forall m, Forall2 (fun s r => is_m m r = is_m m (F (fresh 0 s))) (kept_inputs OR ins) rows).
   { intros m. eapply Forall2_impl; [|exact A]. intros s r [r1 [A1 E]]. cbv beta.
     destruct (alone_fields OR db ban fuel t tmsg s r1 A1) as [_ [_ [X3 _]]].
     destruct (set_rid_fields r1 (rid r)) as [_ [_ [Y3 _]]]. rewrite <- E in Y3. unfold is_m. now rewrite Y3, X3. }
